@@ -27,6 +27,16 @@ func refsZ(xs []int) string {
 
 func fbits(f float64) string { return vh.ZU(math.Float64bits(f)) }
 
+// keyOfPK: the key pair of the pool a public key belongs to.
+func keyOfPK(pk string) *stg.Key {
+	for _, k := range keyCache {
+		if k.PK == pk {
+			return k
+		}
+	}
+	return &stg.Key{}
+}
+
 var dbgErrs map[string]int
 
 var badFuncs = []string{"new_allocation_request", "update_allocation_request", "finalize_allocation", "cancel_allocation",
@@ -266,26 +276,34 @@ func (r *Run) Step(op Op) StepObs {
 
 	case "read":
 		client := refKey(op.C)
-		signer := client
+		signer, pk, cid := client, client.PK, client.ID
 		if op.X&xBadSig != 0 {
 			signer = key("intruder")
 		}
-		cid := client.ID
 		if op.X&xBadID != 0 {
 			cid = key("intruder").ID
 		}
+		if op.X&xForgeKey != 0 {
+			signer, pk = key("intruder"), key("intruder").PK
+		}
+		// what the contract must find out: does the id belong to the carried key, was the carried key used to sign
+		idOK := cid == keyOfPK(pk).ID
+		sigOK := signer.PK == pk
 		ts := now + op.M
 		ownerID := ""
 		if pa := pre.Allocs[op.A]; pa != nil && pa.Owner >= 0 {
 			ownerID = refKey(pa.Owner).ID
 		}
-		in := stg.ReadMarkerInput(signer, cid, client.PK, refKey(op.B).ID, r.allocID(op.A), ownerID, ts, op.N)
+		in := stg.ReadMarkerInput(signer, cid, pk, refKey(op.B).ID, r.allocID(op.A), ownerID, ts, op.N)
 		if rk := [3]int{op.B, op.C, op.A}; !r.readSeen[rk] && op.B < len(r.H.Blobbers) {
 			r.readSeen[rk] = true
 			r.ReadKeys = append(r.ReadKeys, rk)
 		}
 		res = w.Exec(sender, "read_redeem", in, 0, now)
-		model = vh.App("OpRead", vh.Z(int64(op.C)), vh.Z(int64(op.B)), A, vh.Z(ts), vh.Z(op.N), vh.Bool(op.X&xBadID == 0), vh.Bool(op.X&xBadSig == 0))
+		model = vh.App("OpRead", vh.Z(int64(op.C)), vh.Z(int64(op.B)), A, vh.Z(ts), vh.Z(op.N), vh.Bool(idOK), vh.Bool(sigOK))
+		if !idOK || !sigOK {
+			kind = "read-forged"
+		}
 
 	case "kill":
 		res = w.Exec(sender, "kill_blobber", stg.ProviderInput(refKey(op.B).ID), 0, now)
